@@ -63,6 +63,54 @@ var cfgC05 = reg(PropCfg{
 	Assume:     []string{"'passed all pre-execution checks' is observed as: every signer's sequence was incremented"},
 })
 
+func regWeights() map[string]int {
+	return map[string]int{WrkReg: 8, WrkRec: 30, WrkPur: 9, BcnReg: 6, BcnRec: 24, BcnPur: 7, BankSend: 2, EntRaise: 2, EntDecide: 3}
+}
+
+func regProfile() *Profile {
+	return &Profile{Weights: regWeights(), MinBlocks: 6, MaxBlocks: 30, MaxTxs: 5, MaxOps: 3, PUpper: 8, PActor: 10, PNamed: 2, PFault: 2, PExec: 10,
+		PGovParams: 7, PBadRef: 5, TinyLimits: true, ValidParams: true, GovKinds: []string{ParamsWrk, ParamsBcn}}
+}
+
+var cfgC07 = reg(PropCfg{
+	ID: "C07", Profile: regProfile(),
+	Rule: "history with >=1 rejected overwrite attempt at or below the last height after a later record exists, and >=2 registrations with records",
+	NonTrivial: func(w *World) bool {
+		return w.Classes["c07.overwrite-attempt-after-later-record"] > 0 && len(w.Wrk.Regs)+len(w.Bcn.Regs) >= 2
+	},
+	MinClasses: map[string]int{"c07.ok." + WrkRec: 30, "c07.ok." + BcnRec: 30, "c07.overwrite-attempt-after-later-record": 5},
+	Assume:     []string{"every accepted record is re-read after every WRKChain/BEACON transaction and at every commit through the modules' gRPC query servers"},
+})
+
+var cfgC08 = reg(PropCfg{
+	ID: "C08", Profile: regProfile(),
+	Rule: "history with >=1 prune and >=1 purchase between records, or a governance change of the storage limits",
+	NonTrivial: func(w *World) bool {
+		return (w.Classes["c08.record-with-prune"] > 0 && w.Classes["c08.purchase-between-records"] > 0) || w.Classes["gov.passed."+ParamsWrk]+w.Classes["gov.passed."+ParamsBcn] > 0
+	},
+	MinClasses: map[string]int{"c08.record-with-prune": 20, "c08.purchase-between-records": 5},
+	Assume:     []string{"C08's first sentence is read as the evolution it describes: insert, then drop the single oldest retained record if the count exceeds the current limit"},
+})
+
+var cfgC09 = reg(PropCfg{
+	ID: "C09", Profile: regProfile(),
+	Rule: "history with >=3 registrations by >=2 accounts and >=1 rejected attempt by a non-owner",
+	NonTrivial: func(w *World) bool {
+		owners := map[string]bool{}
+		for _, r := range w.Wrk.Regs {
+			owners[r.Owner] = true
+		}
+		for _, r := range w.Bcn.Regs {
+			owners[r.Owner] = true
+		}
+		return len(w.Wrk.Regs)+len(w.Bcn.Regs) >= 3 && len(owners) >= 2 && w.Classes["c09.non-owner-attempt"] > 0
+	},
+	MinClasses: map[string]int{"c09.registration": 30, "c09.non-owner-attempt": 5},
+})
+
+func TestC07(t *testing.T) { RunProperty(t, cfgC07) }
+func TestC08(t *testing.T) { RunProperty(t, cfgC08) }
+func TestC09(t *testing.T) { RunProperty(t, cfgC09) }
 func TestC02(t *testing.T) { RunProperty(t, cfgC02) }
 func TestC03(t *testing.T) { RunProperty(t, cfgC03) }
 func TestC04(t *testing.T) { RunProperty(t, cfgC04) }
